@@ -30,5 +30,19 @@ for d in sorted(glob.glob(os.path.join(V, "seeded", "*"))):
         str(meta.get("needs_to_manifest", "")).replace("|", "/")[:400], "yes" if ev.get("caught_by_quick") else "NO",
         ev.get("caught_by", "check " + os.path.basename(d).split("-")[0]), ev.get("history", "caught by the check as first written").replace("|", "/")))
 block("SEEDED", "\n".join(rows))
+rows = ["| id | sub-checks (SUBCHECKS keys) | quick: evaluations / distinct non-trivial / wall s (last committed evidence) | known-finding hits |", "|---|---|---|---|"]
+import ast
+for f in sorted(glob.glob(os.path.join(V, "evidence", "C*.json"))):
+    ev = json.load(open(f)); pid = ev["property_id"]
+    subs = ""
+    for cf in glob.glob(os.path.join(V, "checks", pid.lower() + "_*.py")):
+        src = open(cf).read()
+        m = re.search(r"^SUBCHECKS\s*=\s*\{(.*?)\}", src, re.S | re.M)
+        if m:
+            subs = ", ".join(re.findall(r'"([^"]+)"\s*:', m.group(1)))
+    cov = ev["coverage"]
+    rows.append("| %s | %s | %s / %s / %s (%s tier, seed %s) | %s |" % (pid, subs or "(built dynamically)", cov["evaluations"], cov["distinct_nontrivial"], ev["wall_s"], ev["tier"], ev["seed"],
+                ", ".join("%s x%d" % kv for kv in cov.get("known_findings_hit", {}).items()) or "-"))
+block("COVERAGE", "\n".join(rows))
 open(os.path.join(V, "DESIGN.md"), "w").write(s)
 print("DESIGN.md rendered: %d fixed, %d open, %d seeded" % (len(kf["fixed"]), len(kf["findings"]), len(glob.glob(os.path.join(V, "seeded", "*")))))
